@@ -624,6 +624,15 @@ func dedup(xs []string) []string {
 }
 
 // SortedKeys returns the keys of m in sorted order.
+func SortedInt64Keys[V any](m map[int64]V) []int64 {
+	ks := make([]int64, 0, len(m))
+	for k := range m {
+		ks = append(ks, k)
+	}
+	sort.Slice(ks, func(i, j int) bool { return ks[i] < ks[j] })
+	return ks
+}
+
 func SortedKeys[V any](m map[string]V) []string {
 	ks := make([]string, 0, len(m))
 	for k := range m {
